@@ -1,4 +1,5 @@
 SPECIFICATION MCSpec
+CONSTANT DevNoCenturyRule = FALSE
 CONSTANT Mode = "full"
 CONSTANT BlockLen = 20000
 INVARIANT Inverse
